@@ -927,7 +927,7 @@ func TestVerif_C04(t *testing.T) {
 			// larger universe (third endpoint with IPv6, second parent, 8 IP sets, an IP-set id whose
 			// content changes in place): depth-bounded graph search
 			c.Extra("alphabet_size_large", len(u.events()))
-			hbfs.Explore(c, c04Spec(u, true, 5, false, workers, nil, "", nil))
+			hbfs.Explore(c, c04Spec(u, true, 4, false, workers, nil, "", nil))
 			hbfs.Explore(c, c04Spec(u, false, 4, false, workers, nil, "", nil))
 			_ = noDup
 		}
